@@ -55,14 +55,22 @@ class Vec:
 
 
 class Bits:
-    """base | mask   (base: None or Sym of the 'other bits')"""
-    __slots__ = ("base", "mask")
+    """(base & keep) | mask   (base: None or a Sym; keep: None = all bits of the base are kept)"""
+    __slots__ = ("base", "mask", "keep")
 
-    def __init__(self, base, mask):
-        self.base, self.mask = base, mask
+    def __init__(self, base, mask, keep=None):
+        self.base, self.mask, self.keep = base, mask, keep
 
     def __repr__(self):
-        return (f"{self.base!r}|" if self.base is not None else "") + hex(self.mask)
+        b = ""
+        if self.base is not None:
+            b = f"{self.base!r}" if self.keep is None else f"({self.base!r} & {self.keep:#x})"
+        if self.base is not None and self.mask:
+            return f"{b} | {self.mask:#x}"
+        return b if self.base is not None else hex(self.mask)
+
+
+INT_BITS = {"u8": 8, "u16": 16, "u32": 32, "u64": 64, "i8": 8, "i16": 16, "i32": 32, "i64": 64, "usize": 64}
 
 
 class Const:
@@ -350,6 +358,9 @@ class Interp:
         if t == "un":
             if n[2] == "Deref":
                 return self.ev(n[4], env)
+            v = self.ev(n[4], env)
+            if n[2] == "Not" and isinstance(v, Bits) and v.base is None and strip_ref(n[3]) in INT_BITS:
+                return Bits(None, ~v.mask & ((1 << INT_BITS[strip_ref(n[3])]) - 1))
             raise Shape(f"unary {n[2]}")
         if t == "lit":
             if n[1] == "int":
@@ -435,6 +446,9 @@ class Interp:
                 raise Shape(f"Option::map over {recv!r}")
             if p in ("std::convert::Into::into", "std::convert::From::from") and len(m["gargs"]) >= 2 and m["gargs"][0] == m["gargs"][1]:
                 return recv
+            if name == "reverse_bits" and isinstance(recv, Bits) and recv.base is None and strip_ref(m["recv_ty"]) in INT_BITS:
+                w = INT_BITS[strip_ref(m["recv_ty"])]
+                return Bits(None, int(format(recv.mask & ((1 << w) - 1), f"0{w}b")[::-1], 2))
             args = [recv] + [self.ev(a, env) for a in m["args"]]
             gargs = m["gargs"] or []
             if not gargs or self.F.adt(strip_ref(gargs[0])) is None:
@@ -491,13 +505,21 @@ class Interp:
                 self.assign(e[1], self.ev(e[2], env), env)
                 return
             if te == "asgop":
-                if e[2] not in ("BitOr", "BitOrAssign"):
+                if e[2] not in ("BitOr", "BitOrAssign", "BitAnd", "BitAndAssign"):
                     raise Shape(f"compound assignment {e[2]}")
                 cur = self.ev(e[4], env)
                 rhs = self.ev(e[5], env)
+                if isinstance(cur, Sym) and e[3] in INT_BITS:
+                    cur = Bits(cur, 0)
                 if not (isinstance(cur, Bits) and isinstance(rhs, Bits) and rhs.base is None):
-                    raise Shape(f"|= on {cur!r}, {rhs!r}")
-                self.assign(e[4], Bits(cur.base, cur.mask | rhs.mask), env)
+                    raise Shape(f"{e[2]} on {cur!r}, {rhs!r}")
+                if e[2].startswith("BitOr"):
+                    new = Bits(cur.base, cur.mask | rhs.mask, cur.keep)
+                else:
+                    full = (1 << INT_BITS.get(e[3], 64)) - 1
+                    keep = (full if cur.keep is None else cur.keep) & rhs.mask
+                    new = Bits(cur.base, cur.mask & rhs.mask, None if (cur.base is None or keep == full) else keep)
+                self.assign(e[4], new, env)
                 return
             self.ev(e, env)
             return
@@ -530,6 +552,9 @@ class Interp:
             if a.path == b.path:
                 return None
         a2, b2 = self.force(a), self.force(b)
+        for x, y in ((a2, b2), (b2, a2)):
+            if isinstance(x, Bits) and isinstance(y, Sym) and x.base is not None and x.base.path == y.path and x.mask == 0 and x.keep is None:
+                return None
         if isinstance(a2, Sym) or isinstance(b2, Sym):
             if isinstance(a2, Sym) and isinstance(b2, Sym) and a2.path == b2.path:
                 return None
@@ -549,7 +574,7 @@ class Interp:
         if isinstance(a2, Vec):
             return self.same(a2.elem, b2.elem, where + "[*]")
         if isinstance(a2, Bits):
-            if a2.mask == b2.mask and ((a2.base is None and b2.base is None) or (a2.base is not None and b2.base is not None and a2.base.path == b2.base.path)):
+            if a2.mask == b2.mask and ((a2.base is None and b2.base is None) or (a2.base is not None and b2.base is not None and a2.base.path == b2.base.path and a2.keep == b2.keep)):
                 return None
             return f"{where}: got bits {a2!r}, original has {b2!r}"
         if isinstance(a2, Const):
